@@ -35,9 +35,14 @@ REGISTRATION = {
             "loop), not executed; the cache-length arithmetic next to TruncateStop belongs to C07.",
 }
 
-PROP_MODULES = ["OllamaVerif.Properties.C14", "OllamaVerif.Tie.C14Variant"]
+PROP_MODULES = ["OllamaVerif.Properties.C14"]
+VARIANT_MODULES = ["OllamaVerif.Tie.C14Variant"]
+VARIANT_THEOREMS = [
+    "OllamaVerif.Tie.C14.tree_findstop_repaired",
+    "OllamaVerif.Tie.C14.c14_tree",
+]
 TIE_MODULES = ["OllamaVerif.Tie.C14"]
-MODULES = PROP_MODULES + TIE_MODULES
+MODULES = PROP_MODULES + VARIANT_MODULES + TIE_MODULES
 TIE_THEOREMS = [
     "OllamaVerif.Tie.C14.ollama_skeleton_matches",
     "OllamaVerif.Tie.C14.llama_skeleton_matches",
@@ -76,8 +81,6 @@ THEOREMS = [
     "OllamaVerif.Stop.runN_eq_run",
     "OllamaVerif.Stop.client_view",
     "OllamaVerif.C14.c14_script",
-    "OllamaVerif.Tie.C14.tree_findstop_repaired",
-    "OllamaVerif.Tie.C14.c14_tree",
 ]
 # Model variant the oracle is asked to run: 1 = first listed stop (finding F7, fixed in /repo 6e9857ebf), 0 = earliest
 # occurrence.  NOT a constant any more: decided on every run by executing the real FindStop (regenerate_variant), and
@@ -177,11 +180,16 @@ def run(ctx):
     # The skeleton tie is built on its own so that a change of either runner's output statements is reported as
     # exactly that (with the changed statements), and the property theorems are still checked.
     tie_ok, _ = ctx.lake_build(TIE_MODULES)
-    if tie_ok:
-        ctx.lean_check(MODULES, THEOREMS + TIE_THEOREMS)
-    else:
-        ctx.lean_check(PROP_MODULES, THEOREMS)
-        ctx.obligations += TIE_THEOREMS      # stay undischarged
+    var_ok, _ = ctx.lake_build(VARIANT_MODULES)
+    mods = PROP_MODULES + (VARIANT_MODULES if var_ok else []) + (TIE_MODULES if tie_ok else [])
+    ctx.lean_check(mods, THEOREMS + (VARIANT_THEOREMS if var_ok else []) + (TIE_THEOREMS if tie_ok else []))
+    if not var_ok:
+        ctx.obligations += VARIANT_THEOREMS      # stay undischarged
+        ctx.notes.append("the tree's FindStop no longer answers like the repaired model variant (findStopV false) on the "
+                         "probe inputs (Generated/C14_Variant.lean): the F7 repair regressed or FindStop/TruncateStop changed; "
+                         "c14_tree no longer applies to this tree (the oracle was asked for variant pinned=%d)" % PINNED_FINDSTOP)
+    if not tie_ok:
+        ctx.obligations += TIE_THEOREMS          # stay undischarged
         ctx.notes.append("output skeleton of runner/{ollamarunner,llamarunner}/runner.go no longer the one the model was "
                          "written against; changed statements: " + " | ".join(skel_diff[:12]))
     env_replay = {}
